@@ -471,8 +471,9 @@ def wire_case(case, out):
 
 # ---------------------------------------------------------------------------- model check 2 (Model/PTensorOpsCheck.v)
 OPCODE2 = {"where": 50, "stack": 51, "any": 52, "dim_to_dense": 53, "project": 54, "reshape": 55, "reshape_star": 55,
-           "view": 56, "copy_": 57, "to": 58}
-GROUP2 = {50: "select", 51: "select", 52: "reduce", 53: "reduce", 54: "reduce", 55: "reshape", 56: "reshape", 57: "storage", 58: "storage"}
+           "view": 56, "copy_": 57, "to": 58, "iter": 59}
+GROUP2 = {50: "select", 51: "select", 52: "reduce", 53: "reduce", 54: "reduce", 55: "reshape", 56: "reshape", 57: "storage", 58: "storage",
+          59: "reduce"}
 
 def _small(specs):
     return not any(math.prod(n for _, n in s["paxes"]) > 64 or math.prod(U.a_numel(e) for e in s["vaxes"]) > 100 for s in specs)
@@ -507,7 +508,12 @@ def wire_case2(case, out):
         inferred = tgt.index(-1) + 1 if -1 in tgt else 0
         na = [1 if args[1] else 0, inferred] + [0 if x == -1 else x for x in tgt]
     elif name == "to": na = [1 if args[0] == "bool" else 0]
-    res = wire_result(out, getattr(out, "first_res", None))
+    fr = getattr(out, "first_res", None)
+    if name == "iter" and isinstance(fr, list):
+        # the slices yielded by __iter__, stacked along a new leading dimension (the model does the same)
+        if not fr: return None
+        fr = torch.stack(fr, 0)
+    res = wire_result(out, fr)
     if res is None: return None
     if name != "to" and res[0] == 0 and getattr(out, "first_res", None) is not None:
         r = out.first_res
